@@ -46,6 +46,10 @@ type Server struct {
 	// commandMutex serializes command execution: like Redis, commands are executed one at a time,
 	// so that commands composed of several handler operations (INCR, APPEND, MSETNX, ...) are atomic.
 	commandMutex sync.Mutex
+	// listenerMutex guards portListener, tlsPortListener and tlsConfig.
+	listenerMutex sync.Mutex
+	// acceptLoops counts the running accept loops so that Stop can wait for them.
+	acceptLoops sync.WaitGroup
 }
 
 // NewServer returns a new server instance.
@@ -112,12 +116,19 @@ func (server *Server) Start() error {
 	}
 	verifPoint("start.opened")
 
-	if server.IsPortEnabled() {
-		go server.serve()
+	// Each accept loop owns the listener it was started with.
+	server.listenerMutex.Lock()
+	portListener, tlsPortListener, tlsConfig := server.portListener, server.tlsPortListener, server.tlsConfig
+	server.listenerMutex.Unlock()
+
+	if portListener != nil {
+		server.acceptLoops.Add(1)
+		go server.serve(portListener)
 	}
 
-	if server.IsTLSPortEnabled() {
-		go server.tlsServe()
+	if tlsPortListener != nil {
+		server.acceptLoops.Add(1)
+		go server.tlsServe(tlsPortListener, tlsConfig)
 	}
 
 	return nil
@@ -133,6 +144,9 @@ func (server *Server) Stop() error {
 	if err := server.close(); err != nil {
 		return err
 	}
+
+	// No connection is accepted after Stop returns.
+	server.acceptLoops.Wait()
 
 	if server.IsPortEnabled() {
 		addr := net.JoinHostPort(server.Addr, strconv.Itoa(server.ConfigPort()))
@@ -158,11 +172,21 @@ func (server *Server) Restart() error {
 
 // open opens a listen socket.
 func (server *Server) open() error {
+	server.listenerMutex.Lock()
+	defer server.listenerMutex.Unlock()
+
+	if server.portListener != nil || server.tlsPortListener != nil {
+		return ErrAlreadyStarted
+	}
+
+	// The listeners are published only when all of them could be opened.
+	var portListener, tlsPortListener net.Listener
+	var tlsConfig *tls.Config
 	var err error
 
 	if server.IsPortEnabled() {
 		addr := net.JoinHostPort(server.Addr, strconv.Itoa(server.ConfigPort()))
-		server.portListener, err = net.Listen("tcp", addr)
+		portListener, err = net.Listen("tcp", addr)
 		if err != nil {
 			return err
 		}
@@ -170,29 +194,38 @@ func (server *Server) open() error {
 	}
 
 	if server.IsTLSPortEnabled() {
-		tlsConfig, ok := server.ConfigTLSConfig()
-		if ok {
-			server.tlsConfig = tlsConfig
-		} else {
-			tlsConfig, err := NewTLSConfigFrom(server.ServerConfig)
-			if err != nil {
-				return err
-			}
-			server.tlsConfig = tlsConfig
+		var ok bool
+		tlsConfig, ok = server.ConfigTLSConfig()
+		if !ok {
+			tlsConfig, err = NewTLSConfigFrom(server.ServerConfig)
 		}
-		addr := net.JoinHostPort(server.Addr, strconv.Itoa(server.ConfigTLSPort()))
-		server.tlsPortListener, err = net.Listen("tcp", addr)
+		if err == nil {
+			addr := net.JoinHostPort(server.Addr, strconv.Itoa(server.ConfigTLSPort()))
+			tlsPortListener, err = net.Listen("tcp", addr)
+			if err == nil {
+				log.Infof("%s/%s (%s) started", PackageName, Version, addr)
+			}
+		}
 		if err != nil {
+			if portListener != nil {
+				portListener.Close()
+			}
 			return err
 		}
-		log.Infof("%s/%s (%s) started", PackageName, Version, addr)
 	}
+
+	server.portListener = portListener
+	server.tlsPortListener = tlsPortListener
+	server.tlsConfig = tlsConfig
 
 	return nil
 }
 
 // close closes a listening socket.
 func (server *Server) close() error {
+	server.listenerMutex.Lock()
+	defer server.listenerMutex.Unlock()
+
 	if server.portListener != nil {
 		err := server.portListener.Close()
 		if err != nil {
@@ -213,16 +246,14 @@ func (server *Server) close() error {
 }
 
 // serve handles client connections.
-func (server *Server) serve() error {
+func (server *Server) serve(l net.Listener) error {
+	defer server.acceptLoops.Done()
 	defer verifPoint("serve.closed")
-	defer server.close()
+	// Closes only the listener of this loop: a newer listener belongs to a newer loop.
+	defer l.Close()
 	verifPoint("serve.enter")
 
-	l := server.portListener
 	for {
-		if l == nil {
-			break
-		}
 		conn, err := l.Accept()
 		if err != nil {
 			verifPoint("serve.exit")
@@ -231,27 +262,24 @@ func (server *Server) serve() error {
 
 		go server.receive(conn, nil)
 	}
-
-	return nil
 }
 
 // tlsServe handles client connections with TLS.
-func (server *Server) tlsServe() error {
+func (server *Server) tlsServe(l net.Listener, tlsConfig *tls.Config) error {
+	defer server.acceptLoops.Done()
 	defer verifPoint("tlsServe.closed")
-	defer server.close()
+	// Closes only the listener of this loop: a newer listener belongs to a newer loop.
+	defer l.Close()
 	verifPoint("tlsServe.enter")
-	l := server.tlsPortListener
+
 	for {
-		if l == nil {
-			break
-		}
 		conn, err := l.Accept()
 		if err != nil {
 			verifPoint("tlsServe.exit")
 			return err
 		}
 
-		tlsConn := tls.Server(conn, server.tlsConfig)
+		tlsConn := tls.Server(conn, tlsConfig)
 		if err := tlsConn.Handshake(); err != nil {
 			return err
 		}
@@ -259,8 +287,6 @@ func (server *Server) tlsServe() error {
 
 		go server.receive(tlsConn, &tlsState)
 	}
-
-	return nil
 }
 
 // receive handles a client connection.
